@@ -311,7 +311,10 @@ def run_traced(store, args, inject=None, timeout=60):
     os.close(fd)
     cmd = ["strace", "-f", "-y", "-s", "64", "-o", tr]
     if inject:
-        cmd += ["-e", "inject=%s:error=%s:when=%d" % inject]
+        if str(inject[1]).startswith("signal="):
+            cmd += ["-e", "inject=%s:%s:when=%d" % inject]      # e.g. signal=SIGKILL on entering the call
+        else:
+            cmd += ["-e", "inject=%s:error=%s:when=%d" % inject]
     cmd += [STOREOP, store.cfg] + list(args)
     try:
         r = vlib.run(cmd, timeout=timeout)
